@@ -66,6 +66,7 @@ PALETTE = {
     'u16': ('u16', '513u16', '77u16'),
     'i64': ('i64', '-5i64', '6i64'),
     'T': ('T', None, None),  # type parameter, instantiated at u16
+    'Host': ('Host', 'Host(7)', 'Host(9)'),  # inherent `default` / `clone` / `to_string` / `eq` that disagree with its trait impls
 }
 
 
